@@ -7,6 +7,7 @@ import hashlib
 import json
 import os
 import re
+import shutil
 import subprocess
 import sys
 import time
@@ -152,6 +153,59 @@ def regenerate_hintsgen() -> tuple[bool, str]:
     return True, ""
 
 
+GEN_PARTS = {"C02": ("trig", "TrigGen"), "C03": ("fetch", "FetchGen")}
+
+
+def generated_tie(prop: str) -> dict:
+    """The proof tie by regeneration for C02 / C03.  In a private directory: tools/py2gallina_chan.py regenerates the
+    trigger / data-delivery methods of REPO's channels.py as Gallina (TrigGen.v / FetchGen.v); coq/gen/<X>GenProofs.v
+    and coq/gen/<prop>gen.v, which prove `regenerated method = model function`, are compiled against them.
+    applies=False: the source has left the translator's language (reason given) -- the correspondence tie remains.
+    ok=False: the regenerated methods are no longer proved equal to the model."""
+    key, gen = GEN_PARTS[prop]
+    d = BUILD / "gen" / f"{prop}_{os.getpid()}"
+    shutil.rmtree(d, ignore_errors=True)
+    d.mkdir(parents=True)
+    tie = {"file": f"coq/gen/{prop}gen.v", "generated": f"{gen}.v from {REPO}/pyiron_workflow/channels.py", "applies": False,
+           "ok": True, "theorems": [], "closed": 0, "error": None}
+    try:
+        rc, log = sh([sys.executable, str(VERIF / "tools" / "py2gallina_chan.py"),
+                      str(REPO / "pyiron_workflow" / "channels.py"), str(d)])
+        try:
+            status = json.loads(log.strip().splitlines()[-1]).get(key, "translator gave no status")
+        except Exception:      # noqa: BLE001
+            status = "translator crashed: " + log[-300:]
+        tie["translator"] = status
+        if status != "ok":
+            return tie
+        tie["applies"] = True
+        srcs = [d / f"{gen}.v"]
+        for name in (f"{gen}Proofs.v", f"{prop}gen.v"):
+            shutil.copy(COQ / "gen" / name, d / name)
+            srcs.append(d / name)
+        hits = forbidden_scan(srcs)
+        if hits:
+            tie["ok"], tie["error"] = False, "forbidden vernacular: " + "; ".join(hits[:5])
+            return tie
+        src = re.sub(r"\(\*.*?\*\)", "", srcs[-1].read_text(), flags=re.S)
+        thms = re.findall(r"^\s*(?:Theorem|Lemma|Corollary)\s+([A-Za-z0-9_']+)", src, flags=re.M)
+        tie["theorems"] = thms
+        log = ""
+        for f in srcs:
+            rc, log = sh(["timeout", "300", "coqc", *COQ_ARGS, "-Q", str(d), "PWGen", str(f)], cwd=d, timeout=400)
+            if rc != 0:
+                break
+        tie["closed"] = log.count("Closed under the global context") if rc == 0 else 0
+        if rc != 0 or tie["closed"] < len(thms) or "Axioms:" in log:
+            tie["ok"] = False
+            tie["error"] = ("the methods regenerated from channels.py are no longer proved equal to the model: "
+                            + re.sub(re.escape(str(d)), "<gen>", log[-2500:]))
+            tie["generated_text"] = (d / f"{gen}.v").read_text()[-3000:]
+        return tie
+    finally:
+        shutil.rmtree(d, ignore_errors=True)
+
+
 def coq_build(jobs: int = 8, prop: str | None = None) -> tuple[bool, str]:
     """make the development (incremental, full .vo), or only the theorem file of one property with its
     dependency closure; serialised by a file lock."""
@@ -253,6 +307,17 @@ def proof_gate(prop: str) -> dict:
         return res
     res["discharged"] = len(thms)
     res["ok"] = True
+    if prop in GEN_PARTS:
+        tie = generated_tie(prop)
+        res["generated_tie"] = tie
+        if tie["applies"]:
+            res["obligations"] += len(tie["theorems"])
+            if tie["ok"]:
+                res["theorems"] = res["theorems"] + tie["theorems"]
+                res["discharged"] += len(tie["theorems"])
+                res["assumptions"]["closed"] += tie["closed"]
+            else:
+                res["ok"], res["file"], res["error"] = False, tie["file"], tie["error"]
     return res
 
 
